@@ -146,6 +146,16 @@ where
     }
 }
 
+/// Run any closure with panics caught silently (for direct calls of functions under test).
+pub fn quiet_catch<T>(f: impl FnOnce() -> T) -> Result<T, String> {
+    install_hook();
+    let was = IN_RUN.with(|f| std::mem::replace(&mut *f.borrow_mut(), true));
+    LAST_PANIC.with(|p| *p.borrow_mut() = None);
+    let r = catch_unwind(AssertUnwindSafe(f));
+    IN_RUN.with(|f| *f.borrow_mut() = was);
+    r.map_err(|_| LAST_PANIC.with(|p| p.borrow_mut().take()).unwrap_or_else(|| "panic".into()))
+}
+
 /// Same through the instrumented (second) value source: the built-in error types see values only
 /// serde_json cannot hold (non-finite floats, duplicate keys, non-canonical numbers).
 pub fn run_ov_with<T, E>(p: &Ov) -> Result<Result<Proj, String>, String>
